@@ -179,7 +179,7 @@ def check_cli(ctx, plain, rng, scratch):
     case = {"kind": "cli", "asm": plain}
     agp = agp_ref.format(plain)
     tpf = tpf_ref.format(plain)
-    mode = rng.choice(["agp2tpf", "tpf2agp", "stdin", "override", "crlf", "outfile", "multi", "multi", "out-override", "no-final-newline"])
+    mode = rng.choice(["agp2tpf", "tpf2agp", "stdin", "override", "crlf", "outfile", "multi", "multi", "out-override", "no-final-newline", "upper-ext"])
     ctx.count(f"cli:{mode}")
     if mode == "agp2tpf":
         (d / "a.agp").write_text(agp)
@@ -207,6 +207,14 @@ def check_cli(ctx, plain, rng, scratch):
         r = cli_runs.run_asm_format([d / "a.agp", "-f", fmt_out, "-o", d / name])
         want = tpf if fmt_out == "TPF" else agp
         outfile = d / name
+    elif mode == "upper-ext":
+        # formats are recognised from file extensions in any letter case
+        iname, oname = rng.choice([("A.AGP", "O.TPF"), ("a.Agp", "o.Tpf"), ("A.AGP", "o.tpf")])
+        (d / iname).write_text(agp)
+        r = cli_runs.run_asm_format([d / iname, "-o", d / oname])
+        want = tpf
+        outfile = d / oname
+        (d / iname).unlink()
     elif mode == "no-final-newline":
         (d / "n.tpf").write_text(tpf[:-1])
         r = cli_runs.run_asm_format([d / "n.tpf", "-f", "TPF"])
@@ -225,7 +233,7 @@ def check_cli(ctx, plain, rng, scratch):
     if r["exit_code"] != 0:
         ctx.violation(f"asm-format-failed:{mode}", f"exit {r['exit_code']} {r['exception']!r} {r['stderr'][-300:]}", case)
         return
-    if mode == "out-override":
+    if mode in ("out-override", "upper-ext"):
         got = outfile.read_text() if outfile.exists() else "<no output file>"
         outfile.unlink(missing_ok=True)
     else:
@@ -276,6 +284,7 @@ def gates(c, tier):
         "gap-type:short_arm": 100,
         "cli:ok": 200,
         "cli:out-override": 20,
+        "cli:upper-ext": 20,
         "cli:no-final-newline": 20,
         "corruption:no-final-newline:ref-valid:parsed": 300,
     }
